@@ -12,6 +12,40 @@ package jsonata
 //@   props C08
 //@   ensures (r0 != nil && r1 == nil) || (r0 == nil && errOK(r1))
 
+// --- C10: Eval / EvalBytes -----------------------------------------------------------------------------------------
+// Statement: an expression that yields no value is reported as ErrUndefined; a nil error comes with the value the
+// evaluator produced, handed out through Interface() (so never an evaluator-internal reflect.Value), a nil pointer
+// (JSON null) as nil; EvalBytes rejects input that encoding/json.Unmarshal rejects, evaluates the decoded input with
+// Eval and returns json.Marshal of exactly that value.
+// function values marshal as the empty string
+//@ func (callableMarshaler).MarshalJSON
+//@   props C10 C09
+//@   ensures [C10:function-is-empty-string] r1 == nil && len(r0) == 2 && r0[0] == 34 && r0[1] == 34
+//@ nonnil field jsonata.Expr.node
+//@ func (*Expr).newEnv
+//@   props C10 C09
+//@   requires e != nil
+//@   ensures result != nil
+//@   assigns heap
+//@   trusted
+//@ func (*Expr).Eval
+//@   props C10 C09
+//@   requires e != nil
+//@   preserves e
+//@   ensures [C10:error-has-no-value] ret("eval#0", 1) != nil ==> (r0 == nil && r1 == ret("eval#0", 1))
+//@   ensures [C10:no-value-is-ErrUndefined] (ret("eval#0", 1) == nil && !valid(ret("eval#0", 0))) ==> (r0 == nil && r1 == ErrUndefined)
+//@   ensures [C10:value-handed-out] (ret("eval#0", 1) == nil && valid(ret("eval#0", 0)) && !(kind(ret("eval#0", 0)) == 22 && isnil(ret("eval#0", 0)))) ==> (r1 == nil && r0 == ifaceof(ret("eval#0", 0)))
+//@   ensures [C10:null-is-nil] (ret("eval#0", 1) == nil && valid(ret("eval#0", 0)) && kind(ret("eval#0", 0)) == 22 && isnil(ret("eval#0", 0))) ==> (r1 == nil && r0 == nil)
+//@   atcall[C10:evaluates-the-compiled-tree] eval#0 requires callee_node == e.node
+//@ func (*Expr).EvalBytes
+//@   props C10 C09
+//@   requires e != nil
+//@   ensures [C10:invalid-json-rejected] ret("json.Unmarshal#0", 0) != nil ==> (len(r0) == 0 && r1 == ret("json.Unmarshal#0", 0))
+//@   ensures [C10:eval-error-propagates] (ret("json.Unmarshal#0", 0) == nil && ret("Expr.Eval#0", 1) != nil) ==> (len(r0) == 0 && r1 == ret("Expr.Eval#0", 1))
+//@   ensures [C10:marshals-the-value] (ret("json.Unmarshal#0", 0) == nil && ret("Expr.Eval#0", 1) == nil) ==> (r0 == ret("json.Marshal#0", 0) && r1 == ret("json.Marshal#0", 1))
+//@   atcall[C10:strict-json-input] json.Unmarshal#0 requires callee_arg0 == data
+//@   atcall[C10:marshals-eval-result] json.Marshal#0 requires callee_arg0 == ret("Expr.Eval#0", 0)
+
 // MustCompile panics (with a string) exactly on the path where Compile returned an error.
 //@ func MustCompile
 //@   props C08
@@ -462,7 +496,7 @@ package jsonata
 //@ pred isF64V(v reflect.Value) = kind(res(v)) == 14
 
 //@ func evalNumericOperator
-//@   props C03 C09
+//@   props C03 C09 C10
 //@   requires node != nil
 //@   preserves node
 //@   abstract-float
